@@ -21,6 +21,9 @@ EXPLANATION = (
     'error code raised under each rejection condition (resume flag, lease without publisher, on_setup raising, '
     'RESUME frame), on_setup called once with the fields of the frame, the dispatch table entries, the reply on the '
     'stream id of the offending frame. Not decided: wire order as observed at run time.')
+EXPLANATION_ADDED = ('The head insertion puts SETUP in only after the queue was seen empty, keeps what was queued before, and is used by connect() only (shared C05.b).')
+EXPLANATION = EXPLANATION.replace(' Not decided', ' ' + EXPLANATION_ADDED + ' Not decided', 1) \
+    if ' Not decided' in EXPLANATION else EXPLANATION + ' ' + EXPLANATION_ADDED
 ASSUMPTIONS = COMMON_ASSUMPTIONS
 
 D, S, U = 'days', 'seconds', 'microseconds'
